@@ -3,8 +3,10 @@
 (* Families of states (one state per abstract input):                       *)
 (*   "layout": every document layout of at most MaxEnt entities (feature,   *)
 (*             rules, scenarios, outlines, examples rows) x tag variants x  *)
-(*             gap profiles; the invariants quantify over EVERY line        *)
-(*             0..last+3 and every multiset of 1..3 lines;                  *)
+(*             gap profiles; BisectIsNearest / ZeroSelectsAll /             *)
+(*             SetupTeardownExempt quantify over EVERY line 0..last+3,      *)
+(*             UnionLaw over every multiset of 1..3 representative lines,   *)
+(*             GroupingLaw over location sequences of two files;            *)
 (*   "list"  : list files of at most MaxList lines over the line pool;      *)
 (*   "name"  : --name option lists over the branch pool.                    *)
 (* Layouts are spread over bucket states (kind sequence x gap profile) so   *)
@@ -50,16 +52,17 @@ NameCases == {<<(<<b>>)>> : b \in Branches} \cup {<<(<<a, b>>)>> : a \in Branche
 VARIABLES ph, ks, prof, items, lst, here, pats
 vars == <<ph, ks, prof, items, lst, here, pats>>
 Init == ph = "start" /\ ks = <<>> /\ prof = <<>> /\ items = <<>> /\ lst = <<>> /\ here = "dot" /\ pats = <<>>
-Next == \/ /\ ph = "start" /\ ph' = "bucket" /\ ks' \in KindSeqs /\ prof' \in Profiles[Len(ks') + 1]
-           /\ UNCHANGED <<items, lst, here, pats>>
-        \/ /\ ph = "bucket" /\ ph' = "layout" /\ items' \in LayoutsOf(ks, prof)
-           /\ UNCHANGED <<ks, prof, lst, here, pats>>
-        \/ /\ ph = "start" /\ ph' = "lbucket" /\ here' \in {"dot", "sub"}
-           /\ UNCHANGED <<ks, prof, items, lst, pats>>
-        \/ /\ ph = "lbucket" /\ ph' = "list" /\ lst' \in ListCases
-           /\ UNCHANGED <<ks, prof, items, here, pats>>
-        \/ /\ ph = "start" /\ ph' = "name" /\ pats' \in NameCases
-           /\ UNCHANGED <<ks, prof, items, lst, here>>
+PickBucket     == /\ ph = "start" /\ ph' = "bucket" /\ ks' \in KindSeqs /\ prof' \in Profiles[Len(ks') + 1]
+                  /\ UNCHANGED <<items, lst, here, pats>>
+PickLayout     == /\ ph = "bucket" /\ ph' = "layout" /\ items' \in LayoutsOf(ks, prof)
+                  /\ UNCHANGED <<ks, prof, lst, here, pats>>
+PickListBucket == /\ ph = "start" /\ ph' = "lbucket" /\ here' \in {"dot", "sub"}
+                  /\ UNCHANGED <<ks, prof, items, lst, pats>>
+PickList       == /\ ph = "lbucket" /\ ph' = "list" /\ lst' \in ListCases
+                  /\ UNCHANGED <<ks, prof, items, here, pats>>
+PickName       == /\ ph = "start" /\ ph' = "name" /\ pats' \in NameCases
+                  /\ UNCHANGED <<ks, prof, items, lst, here>>
+Next == PickBucket \/ PickLayout \/ PickListBucket \/ PickList \/ PickName
 Spec == Init /\ [][Next]_vars
 
 \* ---------------------------------------------------------------- design-level laws on layouts
@@ -163,7 +166,7 @@ Emit == /\ OnLayout(PrintT(<<"CASE", ToJson([kind |-> "layout", items |-> items,
 \* ---------------------------------------------------------------- constant definitions for the cfg files
 TagsAll == {"none", "setup", "teardown"}
 TagsTwo == {"none", "setup"}
-PQ == { <<0,0,0,0,0,0>>, <<1,1,1,1,1,1>>, <<0,1,0,2,0,1>>, <<2,0,1,0,2,0>> }
+PQ == { <<0,0,0,0,0,0>>, <<0,1,0,2,0,1>>, <<2,0,1,0,2,0>> }
 ProfQuick == [n \in 2..5 |-> PQ]
 TaggedQuick == [n \in 2..5 |-> 1]
 PT == << <<0,0,0,0,0,0,0,0>>, <<1,0,0,1,2,0,0,1>>, <<0,1,0,2,0,1,0,2>>, <<2,0,1,0,2,0,1,0>>,
